@@ -3,6 +3,7 @@
 package c02
 
 import (
+	"context"
 	"fmt"
 	"strings"
 	"sync"
@@ -25,7 +26,7 @@ type prog struct {
 	Tune     opx.Tuning
 	Batch    int
 	Seqs     [][]item // one sequence per sender; barriers are numbered in order of appearance
-	Schedule []int    // which sender advances next
+	Schedule []int    // which sender advances next (-1: the batch time-out expires; -10-i: the i-th of the currently parked senders goes away, i.e. the request's context is cancelled)
 }
 
 func gen(rt *rapid.T) prog {
@@ -57,6 +58,13 @@ func gen(rt *rapid.T) prog {
 	// -1 in the schedule: the handler batch's time-out expires at that moment (its
 	// token reaches the operator's loop whenever the loop picks it)
 	p.Schedule = rapid.SliceOfN(rapid.OneOf(rapid.IntRange(0, s-1), rapid.IntRange(0, s-1), rapid.IntRange(0, s-1), rapid.Just(-1)), total, total*2).Draw(rt, "schedule")
+	if s >= 2 && rapid.IntRange(0, 2).Draw(rt, "goesaway") == 0 {
+		// one runner goes away at some point of the schedule
+		for k := rapid.IntRange(1, 3).Draw(rt, "tries"); k > 0; k-- { // (the first one that finds a parked request counts)
+			at := rapid.IntRange(0, len(p.Schedule)-1).Draw(rt, "awayat")
+			p.Schedule[at] = -10 - rapid.IntRange(0, s-1).Draw(rt, "who")
+		}
+	}
 	return p
 }
 
@@ -71,6 +79,9 @@ type senderState struct {
 	doneCh  chan error
 	evIDs   []int // event id of each item (0 for non-events)
 	barrier []int // for each item index: number of barriers strictly before it
+	ctx     context.Context
+	cancel  context.CancelFunc
+	gone    bool // the runner went away: its parked request was abandoned, it sends nothing further
 }
 
 func exec(p prog, c *hx.Case) error {
@@ -97,6 +108,8 @@ func exec(p prog, c *hx.Case) error {
 	wmBefore := make([]map[int]int64, nS)
 	for i, seq := range p.Seqs {
 		s := &senderState{id: ids[i], seq: seq, goCh: make(chan struct{}), doneCh: make(chan error, 1)}
+		s.ctx, s.cancel = context.WithCancel(context.Background())
+		defer s.cancel()
 		nb := 0
 		wmBefore[i] = map[int]int64{}
 		var curWM int64
@@ -173,13 +186,13 @@ func exec(p prog, c *hx.Case) error {
 			switch it.Kind {
 			case "event":
 				id := s.evIDs[s.next]
-				err = op.Send(s.id, opx.Keyed(keys[it.Key%len(keys)], opx.Script{ID: id, Sender: s.id,
+				err = op.SendCtx(s.ctx, s.id, opx.Keyed(keys[it.Key%len(keys)], opx.Script{ID: id, Sender: s.id,
 					Muts: []opx.Mut{{NS: "log", Key: []byte(fmt.Sprint(id)), Val: []byte{1}}}, Timers: []int64{int64(5 + id%20)}}, int64(id)))
 			case "wm":
 				s.wm = max(s.wm, it.WM) // a runner's watermark never decreases
-				err = op.Send(s.id, opx.Watermark(s.wm))
+				err = op.SendCtx(s.ctx, s.id, opx.Watermark(s.wm))
 			case "barrier":
-				err = op.Send(s.id, opx.Barrier(uint64(s.barrier[s.next]+1)))
+				err = op.SendCtx(s.ctx, s.id, opx.Barrier(uint64(s.barrier[s.next]+1)))
 			}
 			s.doneCh <- err
 		}
@@ -196,7 +209,7 @@ func exec(p prog, c *hx.Case) error {
 			case err := <-s.doneCh:
 				s.inCall, s.parked = false, false
 				s.next++
-				if err != nil {
+				if err != nil && !s.gone {
 					return hx.Errf("runner %s: HandleEvent: %v", s.id, err)
 				}
 				return nil
@@ -227,7 +240,7 @@ func exec(p prog, c *hx.Case) error {
 				case err := <-s.doneCh:
 					s.inCall, s.parked = false, false
 					s.next++
-					if err != nil {
+					if err != nil && !s.gone {
 						return hx.Errf("runner %s: HandleEvent: %v", s.id, err)
 					}
 				default:
@@ -236,10 +249,58 @@ func exec(p prog, c *hx.Case) error {
 		}
 		return nil
 	}
-	timeouts := 0
+	timeouts, goneAt, abandoned := 0, 0, 0
 	for _, pick := range p.Schedule {
 		if err := drainDone(); err != nil {
 			return err
+		}
+		if pick <= -10 {
+			// A runner goes away while its request waits for the alignment: the
+			// request's context is cancelled. The runner sends nothing further; the
+			// others complete the pending checkpoint and stop there (no later
+			// checkpoint can complete without this runner's barrier).
+			var parkedNow []*senderState
+			for _, o := range st {
+				if o.inCall && o.parked {
+					parkedNow = append(parkedNow, o)
+				}
+			}
+			if goneAt > 0 || len(parkedNow) == 0 {
+				continue
+			}
+			s := parkedNow[(-10-pick)%len(parkedNow)]
+			goneAt = s.barrier[s.next] // barriers this runner has delivered = the pending checkpoint
+			s.gone = true
+			s.seq = s.seq[:s.next+1]
+			for _, o := range st {
+				if o == s {
+					continue
+				}
+				// (everything up to, but not including, its barrier for the next checkpoint)
+				for i := range o.seq {
+					if o.seq[i].Kind == "barrier" && o.barrier[i] == goneAt {
+						o.seq = o.seq[:i]
+						break
+					}
+				}
+			}
+			s.cancel()
+			abandoned++
+			// the abandoned request may return now or stay parked until the alignment ends
+			select {
+			case err := <-s.doneCh:
+				_ = err
+				s.inCall, s.parked = false, false
+				s.next++
+			case <-time.After(3 * time.Millisecond):
+			}
+			mu.Lock()
+			e := cutErr
+			mu.Unlock()
+			if e != nil {
+				return e
+			}
+			continue
 		}
 		if pick < 0 {
 			if op.Timer.FireAsync() {
@@ -317,6 +378,9 @@ func exec(p prog, c *hx.Case) error {
 			want++
 		}
 	}
+	if goneAt > 0 {
+		want = goneAt
+	}
 	if nAcks != want {
 		return hx.Errf("%d checkpoints were acknowledged, the runners sent barriers for %d", nAcks, want)
 	}
@@ -343,6 +407,7 @@ func exec(p prog, c *hx.Case) error {
 		}
 	}
 	c.LabelIf(parkedEver > 0, "sender-parked")
+	c.LabelIf(abandoned > 0, "parked-request-abandoned-by-its-runner")
 	c.LabelIf(timeouts > 0, "batch-time-out-expired-during-the-schedule")
 	c.LabelIf(behindBarrier > 0, "event-queued-behind-barrier")
 	if nS >= 2 && parkedEver > 0 && behindBarrier > 0 && want >= 2 {
@@ -352,5 +417,5 @@ func exec(p prog, c *hx.Case) error {
 }
 
 func TestPropAlignment(t *testing.T) {
-	hx.Run(t, hx.Spec{Prop: "C02", Persist: true, Rule: "one real Operator, 1..4 sender goroutines each with its own generated sequence of keyed events (appending their id to state and setting a timer), watermarks and barriers for 1..3 consecutive checkpoints; a generated schedule picks which sender advances, a step ends when that sender's HandleEvent returned or parked in the alignment wait (verif hook); at every OperatorCheckpointComplete(N) the handler must have applied exactly the events each sender emitted before its barrier N, must not have been told a watermark (or fired a timer) beyond the minimum of the pre-barrier watermarks; finally each reported checkpoint is restored and probed against the model state at its acknowledgement; non-trivial = >=2 senders, >=1 parked with an event queued behind its barrier, >=2 checkpoints"}, gen, exec)
+	hx.Run(t, hx.Spec{Prop: "C02", Persist: true, Rule: "one real Operator, 1..4 sender goroutines each with its own generated sequence of keyed events (appending their id to state and setting a timer), watermarks and barriers for 1..3 consecutive checkpoints; a generated schedule picks which sender advances, a step ends when that sender's HandleEvent returned or parked in the alignment wait (verif hook); in a third of the cases one runner goes away while its request is parked (the request's context is cancelled, it sends nothing further, the others complete the pending checkpoint); at every OperatorCheckpointComplete(N) the handler must have applied exactly the events each sender emitted before its barrier N, must not have been told a watermark (or fired a timer) beyond the minimum of the pre-barrier watermarks; finally each reported checkpoint is restored and probed against the model state at its acknowledgement; non-trivial = >=2 senders, >=1 parked with an event queued behind its barrier, >=2 checkpoints"}, gen, exec)
 }
